@@ -528,6 +528,8 @@ type Contract struct {
 	Line      int
 	Assumed   bool
 	Inline    bool
+	FuncSetGlobal string   // funcset GLOBAL = f1, f2: dynamic calls through this immutable table are one of these
+	FuncSet       []string
 	FreshRes  bool
 	NonNilRes bool
 	SpawnMod  []ModLoc
@@ -574,9 +576,9 @@ type SpecFile struct {
 	Contracts []*Contract
 }
 
-var topKeywords = map[string]bool{"ghost": true, "ufunc": true, "pred": true, "sfunc": true, "axiom": true, "lemma": true, "fn": true}
+var topKeywords = map[string]bool{"global": true, "ghost": true, "ufunc": true, "pred": true, "sfunc": true, "axiom": true, "lemma": true, "fn": true}
 var clauseKeywords = map[string]bool{"props": true, "requires": true, "ensures": true, "modifies": true, "loop": true, "safety": true,
-	"trusted": true, "pure": true, "noeffect": true, "nullable": true, "interference": true, "expect": true, "assert": true, "inline": true,
+	"trusted": true, "pure": true, "noeffect": true, "nullable": true, "interference": true, "expect": true, "assert": true, "inline": true, "funcset": true,
 	"freshresult": true, "nonnilresult": true, "uses": true, "spawn": true, "records": true}
 
 // extractSpecLines pulls the //@ lines out of a Go source text.
@@ -765,6 +767,14 @@ func parseSpecText(src, pkg, file string, assumed bool) (*SpecFile, error) {
 	}
 	for _, s := range stmts {
 		switch s.kw {
+		case "global":
+			// global PKGPATH.NAME nonnil   — assumed fact about an immutable package-level variable
+			n, t := firstWord(s.rest)
+			if !assumed || strings.TrimSpace(t) != "nonnil" {
+				return nil, errf(s.line, "global NAME nonnil (assumed files only)")
+			}
+			sf.Defs = append(sf.Defs, &SpecDef{Kind: "global", Name: "global:" + n, Pkg: pkg, File: file, Line: s.line, Assumed: true})
+			cur = nil
 		case "ghost":
 			n, t := firstWord(s.rest)
 			sf.Defs = append(sf.Defs, &SpecDef{Kind: "ghost", Name: n, Result: strings.ReplaceAll(t, " ", ""), Pkg: pkg, File: file, Line: s.line, Assumed: assumed})
@@ -988,6 +998,17 @@ func parseSpecText(src, pkg, file string, assumed bool) (*SpecFile, error) {
 				cur.NoEffect = true
 			case "inline":
 				cur.Inline = true
+			case "funcset":
+				i := strings.Index(s.rest, "=")
+				if i < 0 {
+					return nil, errf(s.line, "funcset GLOBAL = f1, f2, ...")
+				}
+				cur.FuncSetGlobal = strings.TrimSpace(s.rest[:i])
+				for _, n := range strings.Split(s.rest[i+1:], ",") {
+					if n = strings.TrimSpace(n); n != "" {
+						cur.FuncSet = append(cur.FuncSet, n)
+					}
+				}
 			case "freshresult":
 				cur.FreshRes = true
 			case "nonnilresult":
